@@ -176,7 +176,7 @@ theorem known_C11_context_truncated :
 
 /-- Inserting a transparent character anywhere into the text gives it no form and changes no other
     character's form (hence neither does deleting one). -/
-theorem C11_transparent_insert (pre a b post : List JoiningType)
+theorem C11_transparent (pre a b post : List JoiningType)
     (h1 : Resolved pre) (h2 : Resolved (a ++ b)) (h3 : Resolved post) :
     arabicJoining stateTable pre (a ++ .T :: b) post
       = (arabicJoining stateTable pre (a ++ b) post).map
